@@ -1,6 +1,7 @@
 """C01 — remapping conserves sequence: outputs exactly partition the input contigs."""
 import remap_lib as R
 
+EXTRA_ANCHORS = ['assembly/scripts/pretext_to_asm.py']      # files outside the property's anchors whose change escalates the quick budget (T3)
 LEVEL = "proof"
 RULE = ("random input assemblies (1-4 scaffolds, 1-6 contigs of 1..3000 bp, both strands, gaps 1/17/100/200) x Pretext AGPs from PretextView-model "
         "scripts, perturbed scripts (shifted/dropped/duplicated/overlapping/out-of-range/unknown pieces), arbitrary bait lists, tagged scripts x texel "
